@@ -254,8 +254,12 @@ class ErrorTree(object):
         some subclass of `LookupError`.
         """
 
-        if self._instance is not _unset and index not in self:
-            self._instance[index]
+        if index not in self:
+            if self._instance is not _unset:
+                self._instance[index]
+            # An empty tree, which is not kept: a lookup never makes
+            # ``index in tree`` or iteration report an error-free element
+            return self.__class__()
         return self._contents[index]
 
     def __setitem__(self, index, value):
